@@ -28,6 +28,15 @@ CHECKS = {
  "C16": ("exploration", "TLC trace validation of world equality",
          "== is logged for every ordered pair of live worlds after every event; TLC checks reflexivity, symmetry, eq => same identifiers/values/resources, and eq right after clone and round trip; twins that are then mutated exercise the contrapositive.",
          "<=3 live worlds.", "6 C16"),
+ "C07": ("model_checking", "TLC model checking of the run-time staging model + TLC trace validation of every admissible execution order of generated schedules (deterministic fork/join shim) and of real rayon runs",
+         "spec/Schedule.tla (stage-by-stage fork, add-on scan, joins) is checked for ExactlyOnce and SeqEquivalent over all schedules of <=3 tasks x 8 world contents x all execution orders; 136 (quick) / ~750 (thorough) generated schedules over 17 task kinds are executed on real Worlds in every order the fork/join structure admits and on rayon pools of 1/2/4/8 threads, and TLC requires every task exactly once, conflicting tasks in declared order, and final world, resources and per-task observations equal to running the tasks one by one on a twin world.",
+         "The shim reports rayon::join faithfully; bounded schedule length (2-4 tasks) and alphabet.", "6 C07"),
+ "C08": ("model_checking", "TLC model checking (NoConflictingOverlap) + structural TLC validation of fork/join traces",
+         "NoConflictingOverlap is an invariant of spec/Schedule.tla (and is violated by the pre-fix duplicate-key variant, checked as a self-test); on real runs a fork of task t while a task u is forked-and-not-joined is accepted only if t and u cannot touch the same data of a stored entity through iterator, resource views or entry views. The verdict is structural, so one trace covers all interleavings of that run.",
+         "Conflict oracle = spec/Access.tla (rows must exist for a conflict); bounded schedule family.", "6 C08"),
+ "C12": ("model_checking", "TLC model checking (GreedyParallel, Termination under weak fairness) + TLC validation of fork/join traces, watchdog for termination",
+         "GreedyParallel and Termination hold on spec/Schedule.tla; on real runs every pair of tasks that greedy in-order grouping by declared access puts in one group must be forked inside one join region (or be started early), and every run on pools of 1/2/4/8 threads and in the single-threaded deterministic shim must reach the end of run_schedule.",
+         "Greedy grouping yardstick = Access!StageOf; hang watchdog 600 s per bin.", "6 C12"),
 }
 
 def main():
@@ -44,6 +53,8 @@ def main():
         "engines": [
             {"name": "world", "path": "tools/pipe_world.py", "serves_properties": ["C01", "C02", "C04", "C06", "C10", "C13", "C15", "C16"],
              "kind_free_text": "spec/WorldStore.tla + MCWorld.tla model-checked by TLC; harness/worlddrv executes histories on real Worlds; spec/TraceWorld.tla validates every event"},
+            {"name": "sched", "path": "tools/pipe_sched.py", "serves_properties": ["C07", "C08", "C12"],
+             "kind_free_text": "spec/Schedule.tla + MCSchedule.tla model-checked by TLC; generated schedule bins run under the brood_verif fork/join shim; spec/TraceSchedule.tla validates every run"},
         ],
         "checks": [],
         "not_applicable": [],
@@ -59,7 +70,7 @@ def main():
                 "thorough_cmd": "./check %s thorough" % p,
                 "evidence_file": "evidence/%s.json" % p,
                 "replay_cmd_template": "./check %s --replay {path}" % p,
-                "engine": "world",
+                "engine": "sched" if p in ("C07", "C08", "C12") else "world",
                 "level_claimed": {"category": lvl, "text": text, "design_ref": "DESIGN.md section " + ref},
                 "level_note": note,
                 "technique": tech,
